@@ -372,7 +372,10 @@ def run_check(cid: str, tier: str, seed: int, runs=None, wall=None, workers=None
         # ---- shrink + replay files ---------------------------------------------------------
         reported = []
         seen_sigs = set()
-        for item in agg["violations"]:
+        unreproduced = []
+        # earliest run first: later violations in a long-lived worker may be follow-on damage
+        cands = sorted(agg["violations"], key=lambda it: (not isinstance(it["run"], int), str(it["run"]).zfill(12)))
+        for item in cands:
             v = item["violation"]
             key = canonical([v["klass"], v.get("sig", {})])
             if key in seen_sigs or len(reported) >= 3:
@@ -382,12 +385,21 @@ def run_check(cid: str, tier: str, seed: int, runs=None, wall=None, workers=None
                 shrunk = {"case": item["case"], "violation": v, "tries": 0, "accepted": 0,
                           "reproduced": False}
             else:
+                # shrink in a FRESH worker forked from the clean parent (search workers may carry
+                # state damaged by the very defect they found)
+                fresh = ProcessPoolExecutor(max_workers=1, mp_context=get_context("fork"),
+                                            initializer=_worker_init, initargs=(cid,))
                 try:
-                    shrunk = pool.submit(_worker_shrink, cid, item["case"], v,
-                                         cfg.get("shrink_s", 60)).result(timeout=900)
+                    shrunk = fresh.submit(_worker_shrink, cid, item["case"], v,
+                                          cfg.get("shrink_s", 60)).result(timeout=900)
                 except Exception as e:  # noqa: BLE001
                     shrunk = {"case": item["case"], "violation": v, "tries": 0, "accepted": 0,
                               "reproduced": False, "shrink_error": repr(e)}
+                finally:
+                    fresh.shutdown(wait=False, cancel_futures=True)
+                if not shrunk.get("reproduced"):
+                    unreproduced.append((item, shrunk))
+                    continue
             path = write_replay(cid, seed, item["run"], shrunk, item["case"])
             ok = False
             if not item.get("no_replay"):
@@ -397,6 +409,14 @@ def run_check(cid: str, tier: str, seed: int, runs=None, wall=None, workers=None
                     ok = False
             reported.append({"path": path, "klass": v["klass"], "replays": ok,
                              "detail": v.get("detail"), "sig": v.get("sig")})
+        if not reported and unreproduced:
+            # nothing reproduced in isolation: still an alarm (state carried between runs is itself
+            # a symptom), reported with the unminimised case
+            item, shrunk = unreproduced[0]
+            path = write_replay(cid, seed, item["run"], shrunk, item["case"])
+            reported.append({"path": path, "klass": item["violation"]["klass"], "replays": False,
+                             "detail": item["violation"].get("detail"),
+                             "sig": item["violation"].get("sig")})
     finally:
         faulthandler.cancel_dump_traceback_later()
         pool.shutdown(wait=False, cancel_futures=True)
